@@ -502,7 +502,7 @@ func init() {
 			"evaluations = schedules, non-trivial = schedules with at least one preemption, distinct outcomes = (scenario, result kind)",
 		Assume: []string{"memdb backend: one storage call is atomic", "preemption points are named-lock operations, storage calls and task start/end; code between two points runs atomically (data-race freedom of that code is the job of the separate free-running -race pass, not of this exploration)",
 			"clients x documents beyond 3 x 1 are not explored"},
-		QuickBudget: 150 * time.Second,
+		QuickBudget: 300 * time.Second,
 		Run:         sCheckRun("C16", func(string) bool { return true }),
 		Reproduce: func(f *Found) (bool, error) {
 			if f.Kind == "data-race" {
